@@ -205,7 +205,7 @@ def blocks(tier, seed):
     for nsub in range(1, max_sub + 1):  # a linker without submodels has an empty span (see 'construct')
         for si, sel in enumerate(selections(nsub)):
             out.append({'kind': 'scripted', 'nsub': nsub, 'sel': sel})
-    for i in range(len(c02.CATALOGUE)):
+    for i in c02.catalogue_with_equations():
         out.append({'kind': 'bare', 'i': i})
     out.append({'kind': 'construct'})
     out.append({'kind': 'offset'})
@@ -458,8 +458,14 @@ def run_solve_case(case):
     a, sa = mk()
     b, sb = mk()
     kw = dict(max_iter=2, tol=0.5, failures=case['failures'])
+    # a selection is a sequence of ids, whatever its type (list, tuple, keys of a dict): the loop below always passes a list
+    sel = case.get('sel')
+    kw_a = dict(kw)
+    if sel is not None:
+        kw['submodels'] = list(sel)
+        kw_a['submodels'] = {'list': list, 'tuple': tuple, 'dict-keys': lambda x: dict.fromkeys(x).keys()}[case.get('sel_type', 'list')](sel)
     del LOG[:]
-    ra = refsolve.call_outcome(a.solve, start=case['start'], end=case['end'], **kw)
+    ra = refsolve.call_outcome(a.solve, start=case['start'], end=case['end'], **kw_a)
     s0 = 0 if case['start'] is None else case['start']
     e0 = 3 if case['end'] is None else case['end']
     flags, exc = [], None
@@ -488,6 +494,14 @@ def run_solve(acc, tier):
                 acc.transitions += 1
                 for key, exp, obs, what in run_solve_case(case):
                     acc.violation(key, case, exp, obs, what)
+                if start in (None, 1) and end in (None, 2):
+                    for sel in ([], [IDS[1]], [IDS[1], IDS[0]], [IDS[0], IDS[1]]):
+                        for sel_type in ('list', 'tuple', 'dict-keys'):
+                            case2 = dict(case, sel=sel, sel_type=sel_type)
+                            acc.evaluations += 1
+                            acc.nontrivial += 1
+                            for key, exp, obs, what in run_solve_case(case2):
+                                acc.violation(key + ':selection-as-' + sel_type, case2, exp, obs, what)
 
 
 def run_block(block, tier, seed):
